@@ -648,6 +648,16 @@ func (f *FA) lf0(v ssa.Value) LF {
 	}
 	opaque := func() LF { return opaqueKey("v:" + v.Name()) }
 	switch x := v.(type) {
+	case *ssa.Extract:
+		// n of `n, err := h.Write(p)` on a hash.Hash: hash.Hash's Write never fails and takes all of p
+		if isInt && x.Index == 0 {
+			if call, ok := x.Tuple.(*ssa.Call); ok && call.Call.IsInvoke() && call.Call.Method.Name() == "Write" && len(call.Call.Args) == 1 {
+				if cs := f.C.CalleesAt(call); len(cs.Mod) == 0 && len(cs.External) == 1 && cs.External[0] == "iface:hash.Hash.Write" {
+					return f.SliceLen(call.Call.Args[0])
+				}
+			}
+		}
+		return opaque()
 	case *ssa.Const:
 		if x.Value != nil && x.Value.Kind() == constant.Int {
 			if i, ok := constant.Int64Val(x.Value); ok && i > -INF && i < INF {
@@ -801,8 +811,7 @@ func (f *FA) lf0(v ssa.Value) LF {
 		if isInt && x.Call.IsInvoke() && x.Call.Method.Name() == "Size" && len(x.Call.Args) == 0 {
 			// h.Size() of a hash.Hash: one value per object (the atom callLen uses for what Sum appends)
 			if cs := f.C.CalleesAt(x); len(cs.Mod) == 0 && len(cs.External) == 1 && cs.External[0] == "iface:hash.Hash.Size" {
-				lo, hi := f.C.moduleHashSizeRange()
-				return f.atomLF("hashsize:"+f.canon(x.Call.Value), "Size("+f.canon(x.Call.Value)+")", lo, hi)
+				return f.C.hashSizeLF(f, x.Call.Value)
 			}
 		}
 		if f.CallRange != nil && isInt {
